@@ -55,8 +55,12 @@ def piersonMoskowitzSpectrum( w, Uw, alpha=0.0081, beta=0.74, g=9.81 ):
     beta = float( beta )
     g = float( g )
 
-    rst = alpha * g * g / np.power( w, 5 ) * \
-        np.exp( -beta * np.power( ( g / Uw ) / w, 4 ) )
+    expc = np.exp( -beta * np.power( ( g / Uw ) / w, 4 ) )
+    if expc == 0:
+        # far below the peak the cut-off has underflowed: the value is 0 to machine 
+        # precision, while 1 / w ** 5 may overflow ( 0 * inf )
+        return 0.0
+    rst = alpha * g * g / np.power( w, 5 ) * expc
     return rst
 
 
@@ -116,8 +120,12 @@ def jonswapSpectrum( w, wp, alpha=0.0081, beta=1.25, gamma=3.3, g=9.81 ):
     if ( w > wp ):
         sigma = 0.09
     r = np.exp( -( w - wp ) * ( w - wp ) / ( 2 * wp * wp * sigma * sigma ) )
-    rst = alpha * g * g / np.power( w, 5 ) * \
-        np.exp( -beta * np.power( wp / w, 4 ) ) * np.power( gamma, r )
+    expc = np.exp( -beta * np.power( wp / w, 4 ) )
+    if expc == 0:
+        # far below the peak the cut-off has underflowed: the value is 0 to machine 
+        # precision, while 1 / w ** 5 may overflow ( 0 * inf )
+        return 0.0
+    rst = alpha * g * g / np.power( w, 5 ) * expc * np.power( gamma, r )
     return rst
 
 
@@ -167,7 +175,12 @@ def isscSpectrum( w, wp, Hs ):
     Hs = float( Hs )
 
     wwp4 = np.power( wp / w, 4 )
-    rst = 5 / 16 * Hs * Hs * wwp4 / w * np.exp( -1.25 * wwp4 )
+    expc = np.exp( -1.25 * wwp4 )
+    if expc == 0:
+        # far below the peak the cut-off has underflowed: the value is 0 to machine 
+        # precision, while ( wp / w ) ** 4 / w may overflow ( 0 * inf )
+        return 0.0
+    rst = 5 / 16 * Hs * Hs * wwp4 / w * expc
     return rst
 
 
